@@ -409,3 +409,6 @@ def check(run):
     from . import c06
     _pd, _A, _B = c06.siblings(run)
     run.rule(c06.r06i, run, _A, _B)
+    from . import c10 as _c10
+    run.rules_run.append("R12e")
+    run.rule(_c10.option_defaults, run, "R12e", {'no_explicit_cast': 'False', 'no_data_loss': 'False'}, "the conversion preferences are off unless requested")
